@@ -591,11 +591,19 @@ void process(std::string const& line)
   } else if (op == "watched") {
     watched[std::stoi(t[1])] = new DW;
   } else if (op == "copyw") {
-    watched[std::stoi(t[2])] = new DW(*watched.at(std::stoi(t[1])));
+    // every way of naming the source selects a different constructor of deathwatched<T> (the forwarding constructor for a
+    // non-const lvalue, the implicit copy constructor for a const view): alternate by the id of the new object
+    int dst = std::stoi(t[2]);
+    DW& src = *watched.at(std::stoi(t[1]));
+    watched[dst] = (dst % 2) ? new DW(static_cast<DW const&>(src)) : new DW(src);
   } else if (op == "movew") {
-    watched[std::stoi(t[2])] = new DW(std::move(*watched.at(std::stoi(t[1]))));
+    int dst = std::stoi(t[2]);
+    DW& src = *watched.at(std::stoi(t[1]));
+    watched[dst] = (dst % 2) ? new DW(static_cast<DW const&&>(src)) : new DW(std::move(src));
   } else if (op == "assignw") {
-    *watched.at(std::stoi(t[1])) = *watched.at(std::stoi(t[2]));
+    int d = std::stoi(t[1]);
+    if (d % 2) *watched.at(d) = static_cast<DW const&>(*watched.at(std::stoi(t[2])));
+    else *watched.at(d) = *watched.at(std::stoi(t[2]));
   } else if (op == "killw") {
     int x = std::stoi(t[1]);
     current_watched = x;
